@@ -13,6 +13,7 @@ mod s_api;
 mod s_bilinear;
 mod s_linear;
 mod s_misc;
+mod s_script;
 mod s_spline;
 mod scen;
 
@@ -72,6 +73,10 @@ fn main() {
         "poison" => s_misc::poison(&mut tr, &mut rng, thorough),
         "units" => s_misc::units(&mut tr, &mut rng, thorough),
         "threads" => s_misc::threads(&mut tr, &mut rng, thorough),
+        "script" => s_script::script(&mut tr, cases.as_deref().unwrap_or_else(|| {
+            eprintln!("script needs --cases <file>");
+            std::process::exit(2)
+        })),
         "bilinear" => s_bilinear::bilinear(&mut tr, &mut rng, thorough),
         "spline" => s_spline::spline(&mut tr, &mut rng, thorough),
         "periodic" => s_spline::periodic(&mut tr, &mut rng, thorough),
